@@ -142,6 +142,8 @@ impl J {
     /// Equality with a relative tolerance on numbers (for sums and averages).
     pub fn approx_eq(&self, o: &J, rel: f64) -> bool {
         match (self, o) {
+            // two integers are compared exactly (neighbouring integers beyond 2^53 are one double)
+            (J::Num(N::Int(a)), J::Num(N::Int(b))) => a == b,
             (J::Num(a), J::Num(b)) => {
                 let (x, y) = (a.f(), b.f());
                 x == y || (x - y).abs() <= rel * x.abs().max(y.abs())
